@@ -20,6 +20,12 @@ RULE = ("tie: every filesystem event (sys.addaudithook: open with write flags, r
         "`create|new|<implicit>` of payloads NAMED LIKE A METAFILE (single files and directories x.torrent, Movie.Torrent, x.TORRENT, "
         "a.b.torrent, .torrent ...; `-o <the directory that holds the payload>/`, no -o with that directory as the working directory and "
         "the content spelled <name> or ./<name>, and the same with another directory): exactly one NEW file, the payload unchanged; "
+        "`create|new|<implicit>` with UNUSUAL OUTPUT PATHS AND REFUSED RUNS: -o / --out / --out= through one or two MISSING folders "
+        "(absolute, relative to the working directory, the directory form fresh/, below the payload), naming a FILE THAT IS ALREADY THERE "
+        "(absolute, relative, inside the payload) or a new file in an existing folder, crossed with runs that are refused (piece length "
+        "spelled '+16' '1_6' ' 16' '13' '27', content path one letter short / one letter more) and runs that name nothing wrong, among "
+        "neighbours named payload2 payload.torrent out.torrent fres: exit status non-zero => NOTHING created, changed or deleted (no stray "
+        "directory, the old file at the -o path intact); exit status zero => exactly the one output file added / rewritten, no new directory; "
         "`create|new|<implicit>` (with -o file, -o dir/, without -o; pre-existing ./.torrent and dir/.torrent; existing output; the output "
         "directory, cwd and payload parent pre-populated with bystanders named like temporaries of the output: <out>.tmp <out>~ <out>.bak "
         ".<out>.swp <out>.part ... which must stay untouched), `create|new --config` (ini found through --config-path, ./torrentfile.ini "
@@ -143,6 +149,95 @@ def named_payload_case(tmp, n, spelling, version, name, is_dir, variant):
         problem = ({expect: "added (one new file; the payload and everything else unchanged)"},
                    {"rc": rc, "out": out[-300:], "diff": d, "payload": os.path.relpath(payload, sb)})
     return inp, problem, ev, (d, expect)
+
+
+# ------------------------------------------------------------------------------------------------ create: unusual -o paths, refused runs
+# `create` names its output with -o / --out / --out=.  The path may lead THROUGH A FOLDER THAT DOES NOT EXIST (one or two missing
+# levels, absolute or relative to the working directory, the directory form `fresh/`, also below the payload), or name a FILE
+# THAT IS ALREADY THERE (in an output directory, relative in the working directory, inside the payload); and the run may be
+# REFUSED (a piece length spelled '+16' '1_6' ' 16' '13' '27', a mistyped content path).  The judge is the property's own: a run
+# that exits non-zero has created, changed and deleted NOTHING (no stray directories or probe files, the file at the -o path
+# is still there byte for byte); a run that exits zero has added -- or, when it was there, rewritten -- exactly the one output file.
+OUT_KINDS = ["missing folder: -o <abs>/out/deep/p.torrent", "missing folders: -o <abs>/fresh/a/b/p.torrent",
+             "missing folder, relative directory form: fresh/", "missing folder below the payload: -o <abs payload>/meta/p.torrent",
+             "missing folder below the payload, relative: ../data/payload/meta/sub/p.torrent",
+             "file already there: -o <abs>/out/x.torrent", "file already there, relative: x.torrent in the working directory",
+             "file already there inside the payload: -o <abs payload>/d/old.torrent", "new file in an existing folder: -o <abs>/out/new.torrent"]
+OUT_OPTS = ["-o", "--out", "--out="]
+REFUSALS = [None, "piece length '+16'", "piece length '1_6'", "piece length ' 16'", "piece length '13'", "piece length '27'",
+            "mistyped content path (one letter short)", "mistyped content path (one letter more)"]
+
+
+def outpath_case(tmp, n, spelling, version, out_kind, opt, refusal):
+    """one create in a fresh interpreter; the payload is a function of nothing but this module.
+       returns (input description, problem (kind, expected, observed) | None, audit events, (rc, diff))"""
+    import random
+    sb = os.path.join(tmp, f"op{n}", "sandbox")
+    data_dir, wd, outdir = os.path.join(sb, "data"), os.path.join(sb, "wd"), os.path.join(sb, "out")
+    for d in (data_dir, wd, outdir, os.path.join(sb, "home")):
+        os.makedirs(d)
+    payload = os.path.join(data_dir, "payload")
+    rng = random.Random("c18-outpath")
+    trees.write_tree(payload, {("a.bin",): rng.randbytes(16384 + 100), ("d", "b.bin"): rng.randbytes(2 * 16384), ("d", "e"): b""})
+    # neighbours whose names are prefixes / extensions of the ones on the command line: they must stay as they are
+    for bp in (os.path.join(data_dir, "payload2"), os.path.join(data_dir, "payload.torrent"), os.path.join(sb, "out.torrent"),
+               os.path.join(wd, "fres")):
+        with open(bp, "wb") as fd:
+            fd.write(b"bystander " + os.path.basename(bp).encode())
+    i = OUT_KINDS.index(out_kind)
+    existing = None
+    if i == 0:
+        out = expect = os.path.join(outdir, "deep", "p.torrent")
+    elif i == 1:
+        out = expect = os.path.join(sb, "fresh", "a", "b", "p.torrent")
+    elif i == 2:
+        out, expect = "fresh" + os.sep, os.path.join(wd, "fresh", "payload.torrent")
+    elif i == 3:
+        out = expect = os.path.join(payload, "meta", "p.torrent")
+    elif i == 4:
+        out = os.path.join("..", "data", "payload", "meta", "sub", "p.torrent")
+        expect = os.path.join(payload, "meta", "sub", "p.torrent")
+    elif i == 5:
+        out = expect = existing = os.path.join(outdir, "x.torrent")
+    elif i == 6:
+        out, expect = "x.torrent", os.path.join(wd, "x.torrent")
+        existing = expect
+    elif i == 7:
+        out = expect = existing = os.path.join(payload, "d", "old.torrent")
+    else:
+        out = expect = os.path.join(outdir, "new.torrent")
+    if existing:
+        with open(existing, "wb") as fd:       # an older metafile of something else
+            fd.write(b"d8:announce10:http://o/a4:infod6:lengthi1e4:name3:old12:piece lengthi16384e6:pieces20:" + b"o" * 20 + b"ee")
+    pl, content = "14", payload
+    if refusal and refusal.startswith("piece length"):
+        pl = refusal.split("'")[1]
+    elif refusal == REFUSALS[6]:
+        content = payload[:-1]
+    elif refusal == REFUSALS[7]:
+        content = payload + "s"
+    argv = ([spelling] if spelling else []) + ["--meta-version", version, "--prog", "0"]
+    argv += ["--piece-length=" + pl] if pl.startswith(("+", " ")) and n % 2 else ["--piece-length", pl]
+    argv += [opt + out] if opt.endswith("=") else [opt, out]
+    argv += [content]
+    before = snapshot(sb)
+    rc, txt, ev = run_cli(sb, wd, argv, f"op{n}")
+    after = snapshot(sb)
+    d = diff(before, after)
+    rel = os.path.relpath(expect, sb)
+    inp = {"kind": "create-output-path", "command": spelling or "<implicit create>", "version": version, "out_kind": out_kind,
+           "out_option": opt, "refusal": refusal, "n": n, "cwd": "wd", "argv": [a.replace(sb, "<sandbox>") for a in argv],
+           "a file is already at the -o path": bool(existing)}
+    problem = None
+    if rc != 0 and d:
+        problem = ("refused-create-changed-the-filesystem", "the run exits non-zero: nothing created, changed or deleted",
+                   {"rc": rc, "out": txt[-300:], "diff": d})
+    elif rc == 0 and d != {rel: "changed" if existing else "added"}:
+        made_dirs = sorted(k for k, v in d.items() if v == "added" and after[k][0] == "dir")
+        problem = ("create-made-directories" if made_dirs and set(d) - set(made_dirs) == {rel} else "create-wrote-other-than-one-file",
+                   {rel: ("changed" if existing else "added") + " (the one output file; nothing else, no new directories)"},
+                   {"rc": rc, "out": txt[-300:], "diff": d})
+    return inp, problem, ev, (rc, d)
 
 
 def predicted_kinds():
@@ -407,6 +502,40 @@ def run(ctx, model_ok):
             if not ctx.classes.get("create: payload named like a metafile, " + var):
                 ctx.broken.append(f"no create of a payload named like a metafile ran with {var}: the run is not accepted")
 
+        # ---------------------------------------------------------------- create: unusual -o paths, refused runs
+        SPV = [("create", "1"), ("new", "2"), ("", "3"), ("create", "3"), ("new", "1"), ("", "2")]
+        if ctx.tier == "thorough":
+            ocases = [SPV[(i + j) % 6] + (ok, OUT_OPTS[(i + j) % 3], rf) for i, ok in enumerate(OUT_KINDS) for j, rf in enumerate(REFUSALS)]
+        else:
+            k = ctx.rng.randrange(60)
+            # every kind of -o path on a refused run (refusals in rotation), every missing-folder kind once more on a run that names
+            # nothing wrong, and the existing-file kinds once more with the other family of refusal (piece length / content path)
+            ocases = [SPV[(k + i) % 6] + (ok, OUT_OPTS[(k + i) % 3], REFUSALS[1 + (k + i) % 7]) for i, ok in enumerate(OUT_KINDS)]
+            ocases += [SPV[(k + i + 1) % 6] + (ok, OUT_OPTS[(k + i + 1) % 3], None) for i, ok in enumerate(OUT_KINDS[:5])]
+            ocases += [SPV[(k + i + 2) % 6] + (ok, OUT_OPTS[(k + i + 2) % 3], REFUSALS[6 + (k + i) % 2] if (k + i) % 7 < 5 else REFUSALS[1 + (k + i) % 5])
+                       for i, ok in ((5, OUT_KINDS[5]), (6, OUT_KINDS[6]), (7, OUT_KINDS[7]))]
+            ocases.append(SPV[k % 6] + (OUT_KINDS[5 + k % 3], OUT_OPTS[k % 3], None))
+        from concurrent.futures import ThreadPoolExecutor as _TPE2
+        with _TPE2(max_workers=6) as ex:          # fresh interpreters on sandboxes of their own
+            ores = list(ex.map(lambda c: outpath_case(tmp, c[0], *c[1]), enumerate(ocases)))
+        for (sp, v, ok, opt, rf), (inp, problem, ev, (rc, d)) in zip(ocases, ores):
+            if problem:
+                ctx.fail(problem[0], inp, problem[1], problem[2])
+            if rf and rc == 0:
+                ctx.notes.append(f"create accepted a run expected to be refused ({rf}; {ok}); judged as a successful run")
+            tie("create", ev, inp)
+            family = "none" if rf is None else ("piece length spelling" if rf.startswith("piece") else "mistyped content path")
+            ctx.case(key=("create-outpath", sp, v, ok, opt, rf), nontrivial=True,
+                     classes=["create -o: " + ok.split(":")[0], "create -o: " + ok, "create -o spelled " + opt,
+                              "create: run " + ("refused (exit status non-zero)" if rc != 0 else "completed"),
+                              "create: refusal cause " + family] +
+                     (["create refused with a file already at the -o path"] if rc != 0 and inp["a file is already at the -o path"] else []) +
+                     (["create -o through a missing folder, nothing else wrong with the run"] if rf is None and "missing" in ok else []))
+        for cl in ("create refused with a file already at the -o path", "create -o through a missing folder, nothing else wrong with the run",
+                   "create: refusal cause piece length spelling", "create: refusal cause mistyped content path"):
+            if not ctx.classes.get(cl):
+                ctx.broken.append(f"no case of class {cl!r} ran: the run is not accepted")
+
         # ---------------------------------------------------------------- create through a configuration file
         def check_config_create(version, cfg_name, cfg, spelling, out_kind, locate, cmd="create"):
             """`create --config [--config-path F] [-o ..] <content>`: the [config] section sets keys parse_config_file knows
@@ -648,4 +777,13 @@ def replay(ctx, data):
             print(f"[C18 replay] VIOLATION create-wrote-other-than-one-file: expected {problem[0]} observed {problem[1]}")
             return 1
         print(f"[C18 replay] create wrote exactly one new file ({sorted(d)}); the payload is unchanged")
+    elif inp.get("kind") == "create-output-path":
+        # payload and sandbox are functions of the recorded parameters: the case is rebuilt and run again
+        with core.Scratch("vc18r_") as tmp:
+            _, problem, _, (rc, d) = outpath_case(tmp, inp.get("n", 0), "" if inp["command"].startswith("<") else inp["command"],
+                                                  inp["version"], inp["out_kind"], inp["out_option"], inp["refusal"])
+        if problem:
+            print(f"[C18 replay] VIOLATION {problem[0]}: expected {problem[1]} observed {problem[2]}")
+            return 1
+        print(f"[C18 replay] create exited {rc} and changed {d or 'nothing'}: as the property demands")
     return 0
